@@ -29,8 +29,11 @@ var vErrSentinel = errors.New("sentinel failure")
 func VH_C15_recovery() {
 	before := vx.ParamInt("before") // middleware in front of Recovery
 	depth := vx.ParamInt("depth")   // pass-through handlers between Recovery and the panicking one
-	kind := vx.Choice(6)            // what is thrown
+	kind := vx.Choice(8)            // what is thrown (6: a panic raised inside a ResponseWriter Before function; 7: http.ErrAbortHandler)
 	phase := vx.Choice(2)           // 0: before the handler wrote anything, 1: after its own write
+	if kind == 6 {
+		vx.Assume(phase == 0) // the before-function case has no "after its own write" phase
+	}
 	early := vx.Bool()              // a middleware in front of Recovery already sent a status
 	s0 := vx.Int(100, 999)
 	envc := vx.Choice(3)
@@ -82,6 +85,12 @@ func VH_C15_recovery() {
 		case 4:
 			var arr []int
 			_ = arr[c.ResponseWriter().Size()+3] // runtime error: index out of range
+		case 7:
+			panic(http.ErrAbortHandler)
+		case 6:
+			// the handler registers a before-function that panics, then writes
+			c.ResponseWriter().Before(func(ResponseWriter) { panic("hook") })
+			_, _ = c.ResponseWriter().Write([]byte("x"))
 		}
 	}
 	if kind == 5 {
@@ -110,6 +119,12 @@ func VH_C15_recovery() {
 	if !reaches {
 		vx.Assert(spy.headers == 1 && spy.firstCode == s0 && spy.bytes == 0, "C15: (panic site not reached) the early status stands")
 		vx.Observe("not-reached", kind, early, nested)
+		return
+	}
+	if kind == 6 && early && before > 0 {
+		// the status was sent before the before-function was registered: it never runs, nothing panics
+		vx.Assert(spy.headers == 1 && spy.firstCode == s0 && string(spy.body) == "x", "C15: (before-function registered after the status) normal response")
+		vx.Observe("hook-not-run", kind, early)
 		return
 	}
 	vx.Reach("panic-recovered")
